@@ -470,7 +470,17 @@ def r17_4(rep: Report, models: dict | None = None) -> None:
     for n in ast.walk(fn):
         if isinstance(n, ast.Call) and call_name(n) == 'MediaFile':
             kws = {k.arg: norm(k.value) for k in n.keywords}
-            if kws.get('stream') == 'self' and kws.get('blob') == 'blob':
+
+            def new_blob(name: str, depth: int = 0) -> bool:
+                """the name holds the Blob constructed in this function (directly or through copies)"""
+                for a_ in ast.walk(fn):
+                    if isinstance(a_, ast.Assign) and len(a_.targets) == 1 and norm(a_.targets[0]) == name:
+                        if isinstance(a_.value, ast.Call) and (call_name(a_.value) or '').split('.')[-1] == 'Blob':
+                            return True
+                        if isinstance(a_.value, ast.Name) and depth < 3 and new_blob(a_.value.id, depth + 1):
+                            return True
+                return False
+            if kws.get('stream') == 'self' and new_blob(kws.get('blob', '')):
                 ok = True
     if ok:
         rep.ok(rid, construct, 'MediaFile(stream=self, blob=blob)')
